@@ -342,6 +342,35 @@ pub fn stages(ctx: &Ctx) -> Vec<Stage> {
         rep.count("end_time_rounding_cases", 1);
         run_case(rep, solver, DimMode::Dynamic, &prob, &cfg, 5_000, false);
     }));
+    // "end just past a step": the ending time lies a sliver beyond a time at which the solver would have
+    // produced a point anyway (the final clipped step is then far shorter than dt_min)
+    let n_sl = tier.pick(7_000u64, 140_000u64);
+    st.push(Stage::new("end-just-past-a-step", n_sl, move |i, rep| {
+        let mut rng = Rng::for_case(seed, "c01-sliver", i);
+        let solver = Solver::ALL[(i % 7) as usize];
+        let n = 1 + rng.below(3);
+        let fl = rng.below(4);
+        let prob = IvpProblem::gen(&mut rng, n, fl);
+        let mut cfg = gen_cfg(&mut rng, solver, prob.lip, (-8.0, -3.0), (0.8, 1.6));
+        if rng.bool() {
+            cfg.dt_min = cfg.dt_max * rng.r(0.05, 1.0);
+        }
+        let probe = solve_real(solver, &cfg, &prob.y0, &prob, &Opts { budget: 2_000_000, max_items: 5_000, mode: DimMode::Dynamic, ..Default::default() });
+        rep.eval();
+        let pts = probe.ok_points();
+        if pts.len() < 4 {
+            return;
+        }
+        let k = 1 + rng.below(pts.len() - 2);
+        let tk = pts[k].0;
+        let t1 = tk + cfg.dt_max * rng.log10(-12.0, -3.0);
+        if !(t1 > tk) {
+            return;
+        }
+        let cfg2 = Cfg { t1, ..cfg.clone() };
+        rep.count("end_just_past_a_step_cases", 1);
+        run_case(rep, solver, DimMode::Dynamic, &prob, &cfg2, 5_000, false);
+    }));
     // start-up boundary: spans that are (nearly) whole multiples of the initial trial step around the
     // length of the multistep start-up, where an unshortened start-up adds up to the end time (D38:
     // one ulp past it) — many more problems than the general sweep, only the critical rows
